@@ -656,12 +656,11 @@ impl VerifBox for MssBox {
                 };
                 let out = run(vec![task], "d", &shared);
                 let wrote = hx(&out_dir.borrow().log);
-                let unread = in_dir.borrow().data.len();
                 // the peer's end stayed alive until here
                 drop(theirs);
                 match &out[0] {
-                    None => format!("r=stuck wrote={wrote} read=- unread={unread}"),
-                    Some((r, read)) => format!("r={r} wrote={wrote} read={} unread={unread}", hx(read)),
+                    None => format!("r=stuck wrote={wrote} read=-"),
+                    Some((r, read)) => format!("r={r} wrote={wrote} read={}", hx(read)),
                 }
             }
             _ => "bad-op".into(),
